@@ -472,7 +472,9 @@ def run_check(plugin_mod, tier, seed, replay=None):
     new_fail = []
     for i in sorted(dec_bad):
         fid = pl.classify(humans[i], byidx[i].get("out")) if hasattr(pl, "classify") else None
-        if fid is not None and fid in known:
+        # a listed finding is a behaviour of the UNCHANGED code that the model reproduces exactly; a decider failure on
+        # which implementation and model differ is therefore a different violation, even inside a known class
+        if fid is not None and fid in known and i not in corr_bad:
             known_hit.setdefault(fid, []).append(i)
         else:
             new_fail.append(i)
@@ -520,11 +522,11 @@ def run_check(plugin_mod, tier, seed, replay=None):
                     sgood = [r for r in srecs if not r.get("hang") and not r.get("harness_error") and not r.get("skip")]
                     shang = [r for r in srecs if r.get("hang")]
                     try:
-                        _, sdb, _ = eval_grouped(pl, sgood)
+                        scb, sdb, _ = eval_grouped(pl, sgood)
                     except RuntimeError:
-                        sdb = set()
-                    cand = [sgood[k] for k in sdb]
-                    cand = [r for r in cand if not (hasattr(pl, "classify") and pl.classify(sh[r["idx"]], r.get("out")) in known)]
+                        scb, sdb = set(), set()
+                    cand = [(k, sgood[k]) for k in sdb]
+                    cand = [r for k, r in cand if k in scb or not (hasattr(pl, "classify") and pl.classify(sh[r["idx"]], r.get("out")) in known)]
                     cand += shang
                     if cand:
                         r = min(cand, key=lambda r: size_of(sh[r["idx"]]))
